@@ -22,7 +22,7 @@ E32 = tol.EPS32
 
 
 def plan(tier, seed):
-    n = 200 if tier == 'quick' else 1500
+    n = 200 if tier == 'quick' else 8000
     return [('idx', i) for i in range(n)] + [('tc', i) for i in range(n // 2)]
 
 
